@@ -31,12 +31,13 @@ func ActionRawValues(currentWord string, meta common.Meta, values common.RawValu
 	vals := make([]richCompletion, len(values))
 	for index, val := range values {
 		val.Value = sanitizer.Replace(val.Value)
+		nospace := meta.Nospace.Matches(val.Value)
 
 		if strings.ContainsAny(val.Value, ` ()[]{}*$?\"'|<>&;#`+"`") {
 			val.Value = fmt.Sprintf("'%v'", quoter.Replace(val.Value))
 		}
 
-		if !meta.Nospace.Matches(val.Value) {
+		if !nospace {
 			val.Value = val.Value + " "
 		}
 
